@@ -33,8 +33,19 @@ ASSUMPTIONS = [
     "model: its result `keep` is evaluated by the harness with the implementation's own shapes; the oracle re-derives it "
     "exactly (interval overlap in Fractions) for axis-aligned rectangles only",
     "cut-outs: an incoming element that keeps no incoming lanelet or no successor, an intersection that keeps no incoming and a "
-    "sign / light that no kept lanelet references count as 'selected for removal' (the narrower reading of the sentence); "
-    "left_of, adjacent_areas and TrafficSign.first_occurrence are not among the relations the property lists",
+    "sign / light that no kept lanelet references count as 'selected for removal' (the narrower reading of the sentence); this "
+    "reading exists twice — py_selection() here and Op.sel?B in CRModel/Refs.lean (the vocabulary of C10_present_run) — and "
+    "the two are compared on every step of every history",
+    "left_of, adjacent_areas and TrafficSign.first_occurrence are not among the relations the property lists; observation "
+    "(not demanded, counted in the bucket obs:left_of-dangling-after-cut_out, Lean witness C10_witness_leftOf_dangles, corpus "
+    "lean_example_cut_124_leftof.json): create_from_lanelet_network copies left_of verbatim, so a kept incoming element can "
+    "name an incoming element the cut-out dropped",
+    "well-formed start network = no dangling reference + stop-line refs covered by the lanelet + pairwise different ids (what "
+    "Scenario.add_objects enforces); the 15% malformed histories are outside it and feed the correspondence only "
+    "(C10_noNewDangling_* and C10_frame_* still apply to them in the model)",
+    "scenario-level removals are modelled as in the repaired tree (look-up in the network first, KeyError without any change "
+    "when the element is not there); stale objects whose id is still in Scenario._id_set are generated "
+    "(bucket stale:id-still-in-pool)",
 ]
 TRUSTED = ["harness/c10.py snapshot(): reads every id-valued attribute through the public accessors; the content of an element "
            "(geometry, types, markings, sign elements, light cycle) is compared through a SHA-1 digest of those attributes"]
@@ -42,7 +53,7 @@ REQUIRED_BUCKETS = ["net_remove_lanelet", "net_remove_sign", "net_remove_light",
                     "scn_remove_signs", "scn_remove_lights", "scn_remove_inter", "cut_out", "from_list",
                     "cut:shape", "cut:types", "cut:incoming-dropped", "cut:intersection-dropped", "cut:sign-dropped",
                     "hanging:sign-removed", "hanging:sign-kept-shared", "lanelet-ref-cleaned", "adjacency-cleaned",
-                    "stopline-ref-cleaned", "intersection-ref-cleaned", "error:key", "stream:wf", "stream:malformed"]
+                    "stopline-ref-cleaned", "intersection-ref-cleaned", "error:key", "stale:id-still-in-pool", "stream:wf", "stream:malformed"]
 
 TYPES = ["URBAN", "HIGHWAY", "BUS_LANE", "SIDEWALK", "CROSSWALK", "INTERSECTION"]
 CELL_W, CELL_H, LANE_H = 10, 4, 3
@@ -169,9 +180,9 @@ def gen_case(ctx):
                 continue
             ids = some(alive_l, 1, 3)
             y = r.random()
-            if y < 0.06 and dead_l:
+            if y < 0.10 and dead_l:
                 ids.append(r.choice(dead_l))            # a stale object: KeyError
-            elif y < 0.12:
+            elif y < 0.16:
                 ids.append(ids[0])                      # the same object twice: KeyError
             single = len(ids) == 1 and r.random() < 0.5
             ref = r.random() < 0.8
@@ -190,7 +201,7 @@ def gen_case(ctx):
             if not al:
                 continue
             ids = some(al, 1, 2)
-            if r.random() < 0.08 and de:
+            if r.random() < 0.15 and de:
                 ids.append(r.choice(de))
             single = len(ids) == 1 and r.random() < 0.5
             ops.append({"op": k, "ids": ids, "single": single})
@@ -203,11 +214,15 @@ def gen_case(ctx):
             if x in alive_i:
                 alive_i.remove(x); dead_i.append(x)
         elif k == "scn_remove_inter":
-            if not alive_i:
+            if not alive_i and not dead_i:
                 continue
-            x = r.choice(alive_i)
+            if not alive_i:
+                ops.append({"op": k, "x": r.choice(dead_i)})
+                continue
+            x = r.choice(alive_i + (dead_i if r.random() < 0.2 else []))   # sometimes a stale object
             ops.append({"op": k, "x": x})
-            alive_i.remove(x); dead_i.append(x)
+            if x in alive_i:
+                alive_i.remove(x); dead_i.append(x)
         elif k == "cut_out":
             y = r.random()
             if y < 0.25:
@@ -399,7 +414,16 @@ class Impl:
     def __init__(self, case):
         self.case = case
         self.scn = build(case)
-        self.grave = {"l": {}, "s": {}, "t": {}, "i": {}}   # objects that have been removed (handed in again as stale objects)
+        self._remember()
+
+    def _remember(self):
+        """every object of the network, by id: after a removal (scenario level or network level) the object can be handed in
+        again as a stale object"""
+        ln = self.scn.lanelet_network
+        self.grave = {"l": {int(o.lanelet_id): o for o in ln.lanelets},
+                      "s": {int(o.traffic_sign_id): o for o in ln.traffic_signs},
+                      "t": {int(o.traffic_light_id): o for o in ln.traffic_lights},
+                      "i": {int(o.intersection_id): o for o in ln.intersections}}
 
     @property
     def ln(self):
@@ -461,8 +485,7 @@ class Impl:
             o = self._obj("i", op["x"])
             if o is None:
                 return None
-            return call(self.scn.remove_intersection, o), {"op": k, "x": int(o.intersection_id),
-                                                          "incs": [int(c.incoming_id) for c in o.incomings]}
+            return call(self.scn.remove_intersection, o), {"op": k, "x": int(o.intersection_id)}
         if k == "cut_out":
             keep = self.keep_of(op)
             shape = mk_shape(op["shape"])
@@ -492,7 +515,7 @@ class Impl:
         from commonroad.scenario.scenario import Scenario
         self.scn = Scenario(0.1)
         self.scn.add_objects(ln)
-        self.grave = {"l": {}, "s": {}, "t": {}, "i": {}}
+        self._remember()
 
     def ids(self):
         return sorted(int(i) for i in self.scn._id_set)
@@ -549,6 +572,70 @@ def exact_keep(case, B, op):
                 exact = False
         keep.add(l["id"])
     return keep, exact
+
+
+def py_selection(op, mop, B, keep):
+    """What one operation selects for removal in the network snapshot B (the property's "selected for removal", read
+    narrowly): lanelet / sign / light / intersection id sets and, per intersection, the incoming ids that may vanish.
+    Independent of the Lean functions Op.sel?B, with which it is compared on every step."""
+    k = op["op"]
+    Bl = {l["id"]: l for l in B["lanelets"]}
+    Bs = {x[0] for x in B["signs"]}
+    Bt = {x[0] for x in B["lights"]}
+    Bi = {i["id"]: i for i in B["inters"]}
+    selL, selS, selT, selI, inc = set(), set(), set(), set(), {}
+    if k == "net_remove_lanelet":
+        selL = {op["x"]}
+    elif k == "net_remove_sign":
+        selS = {op["x"]}
+    elif k == "net_remove_light":
+        selT = {op["x"]}
+    elif k in ("net_remove_inter", "scn_remove_inter"):
+        selI = {mop["x"]}
+        inc = {mop["x"]: {c["id"] for c in Bi[mop["x"]]["incomings"]}} if mop["x"] in Bi else {}
+    elif k == "scn_remove_signs":
+        selS = set(mop["xs"])
+    elif k == "scn_remove_lights":
+        selT = set(mop["xs"])
+    elif k == "scn_remove_lanelets":
+        selL = {a["id"] for a in mop["args"]}
+        if mop["ref"]:
+            remaining = [l for i, l in Bl.items() if i not in selL]
+            usedS = set().union(*[set(l["signs"]) for l in remaining]) if remaining else set()
+            usedT = set().union(*[set(l["lights"]) for l in remaining]) if remaining else set()
+            ofS = set().union(*[set(a["signs"]) for a in mop["args"]])
+            ofT = set().union(*[set(a["lights"]) for a in mop["args"]])
+            selS, selT = ofS - usedS, ofT - usedT
+    elif k == "cut_out":
+        keep = set(keep) & set(Bl)
+        selL = set(Bl) - keep
+        usedS = set().union(*[set(Bl[i]["signs"]) for i in keep]) if keep else set()
+        usedT = set().union(*[set(Bl[i]["lights"]) for i in keep]) if keep else set()
+        selS, selT = Bs - usedS, Bt - usedT
+        for i, it in Bi.items():
+            gone = set()
+            for c in it["incomings"]:
+                if not (set(c["inc"]) & keep) or not ((set(c["right"]) | set(c["straight"]) | set(c["left"])) & keep):
+                    gone.add(c["id"])
+            inc[i] = gone
+            if len(gone) == len(it["incomings"]):
+                selI.add(i)
+    elif k == "from_list":
+        selL = set(Bl) - set(mop["sel"])
+        selS, selT, selI = set(Bs), set(Bt), set(Bi)
+        inc = {i: {c["id"] for c in it["incomings"]} for i, it in Bi.items()}
+    return selL, selS, selT, selI, inc
+
+
+def canon_selection(op, mop, B):
+    """py_selection restricted to the elements B holds, in the wire format of the model's `Scn.selection`."""
+    selL, selS, selT, selI, inc = py_selection(op, mop, B, mop.get("keep"))
+    Bl = {l["id"] for l in B["lanelets"]}
+    Bs = {x[0] for x in B["signs"]}
+    Bt = {x[0] for x in B["lights"]}
+    Bi = {i["id"]: i for i in B["inters"]}
+    K = sorted([i, c["id"]] for i, it in Bi.items() for c in it["incomings"] if c["id"] in inc.get(i, set()))
+    return {"L": sorted(selL & Bl), "S": sorted(selS & Bs), "T": sorted(selT & Bt), "I": sorted(selI & set(Bi)), "K": K}
 
 
 class Rep:
@@ -680,35 +767,8 @@ def oracle_step(ctx, rep, case, op, mop, B, A, err, impl_keep=None):
         ctx.tag("intersection-ref-cleaned")
 
     # (3) every element not selected for removal is still present; signs / lights leave with a lanelet only if unreferenced
-    selL, selS, selT, selI = set(), set(), set(), set()          # what the operation may remove
-    must_go_L = set()
-    inc_may_go = {}                                              # intersection id -> incoming ids that may vanish
-    if k == "net_remove_lanelet":
-        selL = must_go_L = {op["x"]}
-    elif k == "net_remove_sign":
-        selS = {op["x"]}
-    elif k == "net_remove_light":
-        selT = {op["x"]}
-    elif k in ("net_remove_inter", "scn_remove_inter"):
-        selI = {op["x"]}
-    elif k == "scn_remove_signs":
-        selS = set(mop["xs"])
-    elif k == "scn_remove_lights":
-        selT = set(mop["xs"])
-    elif k == "scn_remove_lanelets":
-        selL = must_go_L = {a["id"] for a in mop["args"]}
-        if mop["ref"]:
-            remaining = [l for i, l in Bl.items() if i not in selL]
-            usedS = set().union(*[set(l["signs"]) for l in remaining]) if remaining else set()
-            usedT = set().union(*[set(l["lights"]) for l in remaining]) if remaining else set()
-            ofS = set().union(*[set(a["signs"]) for a in mop["args"]])
-            ofT = set().union(*[set(a["lights"]) for a in mop["args"]])
-            selS, selT = ofS - usedS, ofT - usedT
-            if (ofS - usedS) & set(Bs):
-                ctx.tag("hanging:sign-removed")
-            if ofS & usedS:
-                ctx.tag("hanging:sign-kept-shared")
-    elif k == "cut_out":
+    keep = None
+    if k == "cut_out":
         keep, exact = exact_keep(case, B, op)
         if exact:
             if set(impl_keep) != keep:
@@ -717,30 +777,32 @@ def oracle_step(ctx, rep, case, op, mop, B, A, err, impl_keep=None):
             if not set(impl_keep) <= keep:
                 rep.fail("selection/lanelets", f"filter kept {sorted(set(impl_keep) - keep)} although their type is excluded")
             keep = set(impl_keep)   # geometry of a rotated rectangle / circle / polygon: shapely on the implementation's shapes
-        selL = must_go_L = set(Bl) - keep
-        usedS = set().union(*[set(Bl[i]["signs"]) for i in keep]) if keep else set()
-        usedT = set().union(*[set(Bl[i]["lights"]) for i in keep]) if keep else set()
-        selS, selT = set(Bs) - usedS, set(Bt) - usedT
-        if (set(Bs) - usedS):
+    selL, selS, selT, selI, inc_may_go = py_selection(op, mop, B, keep)   # what the operation may remove
+    must_go_L = selL
+    if k == "scn_remove_lanelets" and mop["ref"]:
+        ofS = set().union(*[set(a["signs"]) for a in mop["args"]])
+        if selS & set(Bs):
+            ctx.tag("hanging:sign-removed")
+        if ofS - selS:
+            ctx.tag("hanging:sign-kept-shared")
+    if k == "cut_out":
+        if set(Bs) & selS:
             ctx.tag("cut:sign-dropped")
-        for i, it in Bi.items():
-            gone = set()
-            for c in it["incomings"]:
-                if not (set(c["inc"]) & keep) or not ((set(c["right"]) | set(c["straight"]) | set(c["left"])) & keep):
-                    gone.add(c["id"])
-            inc_may_go[i] = gone
-            if gone:
-                ctx.tag("cut:incoming-dropped")
-            if len(gone) == len(it["incomings"]):
-                selI.add(i)
-                ctx.tag("cut:intersection-dropped")
+        if any(inc_may_go.values()):
+            ctx.tag("cut:incoming-dropped")
+        if selI:
+            ctx.tag("cut:intersection-dropped")
         if op["shape"] is not None:
             ctx.tag("cut:shape")
         if op["excl"]:
             ctx.tag("cut:types")
-    elif k == "from_list":
-        selL = must_go_L = set(Bl) - set(mop["sel"])
-        selS, selT, selI = set(Bs), set(Bt), set(Bi)
+        # observation (not demanded: left_of is not among the relations the property lists): a kept incoming element whose
+        # left_of names an incoming element the cut-out dropped
+        for it in A["inters"]:
+            ids_ = {c["id"] for c in it["incomings"]}
+            if any(c["leftOf"] is not None and c["leftOf"] not in ids_ and
+                   c["leftOf"] in {o["id"] for o in Bi.get(it["id"], {"incomings": []})["incomings"]} for c in it["incomings"]):
+                ctx.tag("obs:left_of-dangling-after-cut_out")
 
     def present(kind, before, after, sel):
         lost = (set(before) - set(after)) - sel
@@ -784,20 +846,29 @@ def run_case(ctx, case, with_model=True):
     if not wf_stream:
         ctx.excluded += 1
     ctx.case(case)
-    mops, trace = [], []
+    mops, trace, sels = [], [], []
     B = init["net"]
     oracle_on = wf_stream and py_nodangling(B) and py_wf(B)
     for step, op in enumerate(case["ops"]):
+        ids_before = set(impl.ids())
+        present_before = ({l["id"] for l in B["lanelets"]} | {x[0] for x in B["signs"]} | {x[0] for x in B["lights"]}
+                          | {i["id"] for i in B["inters"]})
         r = impl.apply(op)
         if r is None:
             continue
         res, mop = r
         err = None if res[0] == "ok" else res[1]
+        if op["op"].startswith("scn_remove") and err == "key":
+            gone = [x for x in (mop.get("xs") or [a["id"] for a in mop.get("args", [])] or [mop.get("x")])
+                    if x in ids_before and x not in present_before]
+            if gone:
+                ctx.tag("stale:id-still-in-pool")   # removed on network level before: KeyError from the look-up, not from _id_set
         A = snapshot(impl.ln)
         ctx.tag(op["op"])
         if err is not None:
             ctx.tag("error:" + err)
         mops.append(mop)
+        sels.append(canon_selection(op, mop, B))
         trace.append({"net": A, "ids": impl.ids(), "err": err, "nd": py_nodangling(A), "wf": py_wf(A)})
         if oracle_on and not (op["op"] in ("cut_out", "from_list") and not op["cleanup"]):
             rep = Rep(ctx, case, step, op)
@@ -818,6 +889,10 @@ def run_case(ctx, case, with_model=True):
         out = ctx.driver.ask("C10", "run", {"init": init, "ops": mops})
         model = [{"net": canon_net(s["net"]), "ids": sorted(s["ids"]), "err": s["err"], "nd": s["nd"], "wf": s["wf"]} for s in out]
         ctx.compare(case, trace, model, "history of removals / cut-outs on the real Scenario / LaneletNetwork vs CR.Refs.Scn.trace")
+        msel = ctx.driver.ask("C10", "selections", {"init": init, "ops": mops})
+        msel = [{"L": sorted(x["L"]), "S": sorted(x["S"]), "T": sorted(x["T"]), "I": sorted(x["I"]), "K": sorted(x["K"])} for x in msel]
+        ctx.compare(case, sels, msel, "what each operation selects for removal: the oracle's reading vs CR.Refs.Scn.selections "
+                                      "(the vocabulary of C10_present_run)")
 
 
 def run(ctx):
